@@ -168,6 +168,8 @@ TIE = {
  "C09": "SMCSamples.log_weights and the statements of SMCSamples.resample that compute the probability vector handed to rng.choice",
  "C11": "the statements of SMCSampler.sample that decide whether a resumed call re-enters the loop, and the LOOP of SMCSampler.sample statement by statement (the body of `while True:`, the nested maybe_checkpoint, the `if run_smc_loop:` / break skeleton and the statements after the loop up to the forced checkpoint) over the callee interface Gen.LoopOps (Props/C11LoopTie: the loop and the statements after it read nothing but the five values a checkpoint payload is built from, so a call restarted from them records the same history, evidence and new payloads, for every callee)",
  "C12": "the cadence rule inside maybe_checkpoint of SMCSampler.sample and utils.dump_pickle_to_hdf (create / resize / overwrite of the checkpoint dataset, in a dataset vocabulary), and the LOOP of SMCSampler.sample statement by statement (the body of `while True:`, the nested maybe_checkpoint, the `if run_smc_loop:` / break skeleton and the statements after the loop up to the forced checkpoint) over the callee interface Gen.LoopOps (Props/C12LoopTie: src_cadence - the payloads handed to the callback are built at iterations e, 2e, ... and once at the end, the last one from the returned population, evidence, counter, temperature, minimum step and history)",
+ "C17": "the statements by which the samplers EVALUATE the user's functions (sixth vocabulary, harness/translate/eval2lean.py over Gen/EvalOps): the counting wrapper Sampler.log_likelihood, the construct-attach-prior-then-likelihood statements of five call sites (importance sampler, MCMC and SMC kernel targets, MiniPCNSMC.mutate, EmceeSMC.mutate) and the whole rejection loop of MCMCSampler.draw_initial_samples (Props/C17Tie: every site = Model.evalLP / reevaluate / targetEval; src_prior_before_likelihood_same_points; tie_draw_initial_samples: for n >= 1 the translated initial draw consumes the same batches, makes the same calls in the same order, counts the same evaluations and returns the same population as Model.drawInitial, by induction over the batches)",
+ "C10": "the statements by which the samplers EVALUATE the user's functions (sixth vocabulary, harness/translate/eval2lean.py over Gen/EvalOps): the counting wrapper Sampler.log_likelihood, the construct-attach-prior-then-likelihood statements of five call sites (importance sampler, MCMC and SMC kernel targets, MiniPCNSMC.mutate, EmceeSMC.mutate) and the whole rejection loop of MCMCSampler.draw_initial_samples (Props/C10Tie: src_sites_coherent - the set handed on by every translated site stores the user's prior / likelihood and the proposal at its own rows; src_initial_population - exactly n rows, finite priors only, each row with the log q drawn together with it)",
  "C14": "the checkpoint-FILE blocks of Aspire.fit and Aspire.sample_posterior (fifth vocabulary, harness/translate/file2lean.py over Gen/FileOps: the alias of the checkpoint defaults, which file is opened, deletion and re-creation of the aspire_config and flow groups, the saved_* flags, the path and cadence handed to the sampler) (Props/C14Tie: closed forms tie_fit_file_block / tie_sample_pre_block / tie_sample_post_block; src_post_after_pre_is_identity - within one call nothing is written after sampling; src_sampler_gets_the_same_file; rel_fit and rel_sample: the translated blocks, composed with the sampler's checkpoint writes, do to the source-level session exactly what Model.stepFit / Model.stepSample do to the model's)",
  "C19": "utils.PoolHandler.__enter__ / __exit__ and the prologue and finally-block of the generator Aspire.auto_checkpoint (fourth vocabulary, harness/translate/ctx2lean.py: attribute copies, partial(...) as a fresh token, close/join events, getattr/hasattr/delattr, the defaults dictionary), composed by the semantics of the with statement (Props/C19Tie: execSrc; src_callables_restored, src_auto_restores, src_defaults_restored, src_closed_if_asked, src_exception_propagates at every nesting depth; src_agrees_with_model: same raised flag, defaults and close/join events as Model.exec)",
  "C18": "the LOOP of SMCSampler.sample statement by statement (the body of `while True:`, the nested maybe_checkpoint, the `if run_smc_loop:` / break skeleton and the statements after the loop up to the forced checkpoint) over the callee interface Gen.LoopOps (Props/C18Tie: kitOf packages the callees as the model's Kit; one pass = Model.iterate, maybe_checkpoint = Model.maybeCheckpoint, the loop = Model.runLoop, the statements after the loop = Model.finish, the whole call = Model.runFrom, on the image of every model state; src_one_entry_per_iteration and src_history_faithful restate the property for the translated source)",
